@@ -317,7 +317,6 @@ func (r *c08Run) start(dir string, handles []recovery.CheckpointHandle) string {
 	comp.SmallestLevelSize = int64(r.cfg.smallest)
 	r.db = db
 	r.s = &c08Sched{dkvSched: &dkvSched{db: db, parked: map[string]*parkedTask{}, events: make(chan string, 64), ids: map[*sst.Table]int{}}, ck: map[uint64]*parkedTask{}}
-	r.s.free = r.freeStart
 	verifhook.Set(r.s.handler)
 	r.flushQ, r.compactQ = 0, 0
 	r.waits = map[uint64]c08Wait{}
@@ -335,12 +334,85 @@ func (r *c08Run) start(dir string, handles []recovery.CheckpointHandle) string {
 		}
 		res <- ""
 	}()
+	if r.freeStart {
+		return r.pump(res)
+	}
 	select {
 	case e := <-res:
 		return e
 	case <-time.After(10 * time.Second):
 		return "timeout"
 	}
+}
+
+// pump lets the background tasks of the starting instance run while DB.Start is still replaying: whenever a flush
+// or compaction task is parked at a hook it is released, one at a time, in whatever order they show up relative to
+// the replay loop (not recorded: afterwards only reads are compared). Before every release the files of the retained
+// checkpoint and of the live level list are verified, so that no task is let loose on damaged tables.
+func (r *c08Run) pump(res chan string) string {
+	s := r.s
+	started, startErr := false, ""
+	var tasksDone chan struct{}
+	deadline := time.Now().Add(20 * time.Second)
+	for time.Now().Before(deadline) {
+		if !started {
+			select {
+			case e := <-res:
+				if e != "" {
+					return e
+				}
+				started = true
+				tasksDone = make(chan struct{})
+				db := r.db
+				go func() { db.WaitOnTasks(); close(tasksDone) }()
+			default:
+			}
+		}
+		progressed := false
+		for _, kind := range []string{"flush", "compact"} {
+			s.mu.Lock()
+			t := s.parked[kind]
+			s.mu.Unlock()
+			if t == nil {
+				continue
+			}
+			if st := r.intact(); st != "ok" {
+				r.corrupt = st
+				return startErr
+			}
+			if st := r.liveIntact(); st != "ok" {
+				r.corrupt = st
+				return startErr
+			}
+			for len(s.events) > 0 {
+				<-s.events
+			}
+			s.release(kind)
+			progressed = true
+			// until the task parks again or reports that it is through
+			wait := time.Now().Add(schedGrace)
+			for time.Now().Before(wait) {
+				s.mu.Lock()
+				again := s.parked[kind] != nil
+				s.mu.Unlock()
+				if again || len(s.events) > 0 {
+					break
+				}
+				time.Sleep(20 * time.Microsecond)
+			}
+		}
+		if started && !progressed {
+			select {
+			case <-tasksDone:
+				return ""
+			default:
+			}
+		}
+		if !progressed {
+			time.Sleep(50 * time.Microsecond)
+		}
+	}
+	return "timeout"
 }
 
 func c08Short(s string) string {
@@ -924,14 +996,11 @@ func runC08Trace(c lib.Case) []string {
 				emit("failed " + e)
 				continue
 			}
-			done := make(chan struct{})
-			go func() { r.db.WaitOnTasks(); close(done) }()
-			select {
-			case <-done:
-				r.freeMode = true
+			r.freeMode = true
+			if r.corrupt != "" {
+				emit("corrupt " + r.corrupt)
+			} else {
 				emit("opened-free")
-			case <-time.After(10 * time.Second):
-				emit("timeout")
 			}
 		case "peek":
 			id, _ := strconv.ParseUint(f[1], 10, 64)
